@@ -486,3 +486,32 @@ def fqsafe_bounded(tier, seed):
 from pyvc.units import Bounded      # noqa: E402
 UNITS.append(Bounded(PROP, 'fqSafe[keeps exactly A-Za-z0-9_-; every ASCII character]', fqsafe_bounded,
                      '132 characters x 3 contexts', 'exhaustive run of the real function against the specification'))
+
+
+# a numeric index in the header (sample-sheet number instead of a sequence, possibly zero-padded): taken as it stands
+def pih_numeric_setup(index_text):
+    def setup(eng):
+        pih_setup(eng)
+        fields = eng.spec_env['FIELDS']
+        eng.spec_env['INDEX'] = index_text
+        eng.spec_env['HDR'] = segstr.build(sum(([':' if i else '', f] for i, f in enumerate(fields[:7])), []) + [' ']
+                                           + sum(([':' if i else '', f] for i, f in enumerate(fields[7:])), []) + [':', index_text])
+        eng.spec_env['INT'] = eng.builtins()['int']
+    return setup
+
+
+def numeric_index_unit(index_text):
+    return Contract(
+        PROP, FB + '::TaggedRecord._parse_illumina_header', name='TaggedRecord._parse_illumina_header[numeric index %s]' % index_text,
+        params={'self': ('obj', 'TaggedRecord', {'tags': ('const', None)}, FB), 'header': lambda e, n: e.spec_env['HDR'],
+                'indexFileParser': pih_parser, 'indexFileAlias': ('const', 'indices')},
+        setup=pih_numeric_setup(index_text),
+        pre_state=lambda eng, fr: (fr.env['self'].attrs.__setitem__('tags', {}), fr.env.update({'int': eng.spec_env['INT']}))[0],
+        ensures={'the_index_is_recorded_as_it_stands_in_the_header':
+                 'self.tags["aa"] == INDEX and self.tags["aA"] == INDEX and self.tags["aI"] == INDEX'},
+        raises={},
+        assumptions=['Illumina header of the common form whose last field is the number %r' % index_text],
+    )
+
+
+UNITS += [numeric_index_unit('7'), numeric_index_unit('01'), numeric_index_unit('007')]
